@@ -18,11 +18,14 @@ import (
 	"crypto/sha256"
 	"encoding/json"
 	"fmt"
+	"go/types"
+	"golang.org/x/tools/go/ssa"
 	"os"
 	"os/exec"
 	"path/filepath"
 	"runtime"
 	"sort"
+	"strconv"
 	"strings"
 	"sync"
 	"sync/atomic"
@@ -121,6 +124,10 @@ func main() {
 	}
 	if len(os.Args) > 1 && os.Args[1] == "stress" {
 		stress(os.Args[2:])
+		return
+	}
+	if len(os.Args) > 3 && os.Args[1] == "cold" {
+		cold(os.Args[2], os.Args[3], os.Args[4:])
 		return
 	}
 	res := evid.New("C01")
@@ -245,6 +252,48 @@ func main() {
 	}
 	wg.Wait()
 
+	// (c') cold concurrent start: fresh processes whose very first fingerprint calls are made
+	// by many goroutines at once (prior history: none), each on its own file
+	{
+		var rels []string
+		for rel := range golden {
+			rels = append(rels, rel)
+		}
+		sort.Strings(rels)
+		nCold := evid.Pick(8, 40)
+		for k := 0; k < nCold; k++ {
+			wg.Add(1)
+			sem <- struct{}{}
+			go func(k int) {
+				defer wg.Done()
+				defer func() { <-sem }()
+				cmd := exec.Command(self, append([]string{"cold", dirs["plain"], fmt.Sprint(k)}, rels...)...)
+				cmd.Env = append(os.Environ(), fmt.Sprintf("GOMAXPROCS=%d", []int{16, 16, 4, 2}[k%4]))
+				out, err := cmd.Output()
+				var obs []coldObs
+				mu.Lock()
+				defer mu.Unlock()
+				if err != nil || json.Unmarshal(out, &obs) != nil {
+					res.Inconcl(1)
+					return
+				}
+				for _, o := range obs {
+					res.Eval(1)
+					res.Count("cold_concurrent_observations", 1)
+					if multi[filepath.Dir(o.Rel)] {
+						res.Distinct(fmt.Sprintf("%s|cold-concurrent|%d", o.Rel, k%4))
+					}
+					ok, what, n := sameByName(golden[o.Rel][o.Pol], o.Ts)
+					res.Count("cold_concurrent_functions_compared", n)
+					if !ok {
+						res.Violate("nondeterministic/cold-concurrent", fmt.Sprintf("%s (%s policy): a fresh process whose first fingerprint calls were made by 32 goroutines at once disagrees with the golden observation: %s", o.Rel, o.Pol, what), map[string]any{"file": o.Rel, "shift": k, "policy": o.Pol})
+					}
+				}
+			}(k)
+		}
+		wg.Wait()
+	}
+
 	// (a)(b)(c) in a race-built child
 	rb := os.Getenv("VERIF_RACE_BIN")
 	if rb == "" {
@@ -323,6 +372,154 @@ func main() {
 		res.Broken = "no result ever came from a re-used pooled analysis object: pool-history clause unobserved"
 	}
 	res.Logf("C01: files=%d observations=%d pool-reuses=%d races=%d violations=%d\n", len(golden), res.Evaluations, res.GetCount("pool_reuses_observed"), len(races), res.NumViolations())
+}
+
+type coldObs struct {
+	Rel string   `json:"rel"`
+	Pol string   `json:"pol"`
+	Ts  []triple `json:"ts"`
+}
+
+// cold: load (type-check) every file and build a goroutine-private SSA program for each
+// caller first - that touches none of the canonicalisation under test - then release all
+// goroutines at once. The process's very first canonicalisations therefore run concurrently;
+// every caller walks its functions in ascending size, so that all of them enter new territory
+// (more registers, more blocks than anything analysed before) at the same moments. Half of the
+// children put all callers on one file, the others spread them over the files. Afterwards the
+// files are fingerprinted once more sequentially (state left behind by the concurrent start
+// is then visible as well).
+func cold(dir, shift string, rels []string) {
+	k, _ := strconv.Atoi(shift)
+	type job struct {
+		rel, pol string
+		pk       []*packages.Package
+		fns      []*ssa.Function
+	}
+	loaded := map[string][]*packages.Package{}
+	var jobs []job
+	nCallers := 32
+	for i := 0; i < nCallers; i++ {
+		rel := rels[(i+k)%len(rels)]
+		if k%2 == 1 {
+			rel = rels[k%len(rels)] // every caller on the same file
+		}
+		if _, ok := loaded[rel]; !ok {
+			pk, err := fp.Load(filepath.Join(dir, rel))
+			if err != nil {
+				pk = nil
+			}
+			loaded[rel] = pk
+		}
+		pk := loaded[rel]
+		if pk == nil {
+			continue
+		}
+		prog, _, err := ir.BuildSSAFromPackages(pk)
+		if err != nil {
+			continue
+		}
+		j := job{rel: rel, pol: []string{"default", "keepall"}[(i+k)%2], pk: pk}
+		var walk func(fn *ssa.Function)
+		seen := map[*ssa.Function]bool{}
+		walk = func(fn *ssa.Function) {
+			if fn == nil || seen[fn] {
+				return
+			}
+			seen[fn] = true
+			if len(fn.Blocks) > 0 && (fn.Synthetic == "" || fn.Parent() != nil) {
+				j.fns = append(j.fns, fn)
+			}
+			for _, a := range fn.AnonFuncs {
+				walk(a)
+			}
+		}
+		for _, p := range pk {
+			if sp := prog.Package(p.Types); sp != nil {
+				var names []string
+				for n := range sp.Members {
+					names = append(names, n)
+				}
+				sort.Strings(names)
+				for _, n := range names {
+					switch m := sp.Members[n].(type) {
+					case *ssa.Function:
+						walk(m)
+					case *ssa.Type:
+						if named, ok := m.Type().(*types.Named); ok {
+							for x := 0; x < named.NumMethods(); x++ {
+								walk(prog.FuncValue(named.Method(x)))
+							}
+						}
+					}
+				}
+			}
+		}
+		size := func(fn *ssa.Function) int {
+			n := 0
+			for _, b := range fn.Blocks {
+				n += len(b.Instrs)
+			}
+			return n
+		}
+		sort.SliceStable(j.fns, func(a, b int) bool { return size(j.fns[a]) < size(j.fns[b]) })
+		jobs = append(jobs, j)
+	}
+	start := make(chan struct{})
+	out := make([]coldObs, len(jobs))
+	var wg sync.WaitGroup
+	for i, j := range jobs {
+		wg.Add(1)
+		go func(i int, j job) {
+			defer wg.Done()
+			<-start
+			var rs []diff.FingerprintResult
+			for _, fn := range j.fns {
+				rs = append(rs, diff.GenerateFingerprint(fn, fp.Policies[j.pol], false))
+			}
+			out[i] = coldObs{j.rel, j.pol, triples(rs)}
+		}(i, j)
+	}
+	close(start)
+	wg.Wait()
+	all := append([]coldObs{}, out...)
+	for rel, pk := range loaded {
+		if pk == nil {
+			continue
+		}
+		for pol := range fp.Policies {
+			if rs, err := diff.FingerprintPackages(pk, fp.Policies[pol], false); err == nil {
+				all = append(all, coldObs{rel, pol, triples(rs)})
+			}
+		}
+	}
+	json.NewEncoder(os.Stdout).Encode(all)
+}
+
+// sameByName: every observed function that the golden observation also has (by name) must
+// agree with it; the two enumerations need not list exactly the same functions.
+func sameByName(golden, got []triple) (bool, string, int) {
+	g := map[string][]triple{}
+	for _, t := range golden {
+		g[t.Name] = append(g[t.Name], t)
+	}
+	n := 0
+	for _, t := range got {
+		cands := g[t.Name]
+		if len(cands) == 0 {
+			continue
+		}
+		n++
+		ok := false
+		for _, c := range cands {
+			if c.FP == t.FP && c.IRH == t.IRH {
+				ok = true
+			}
+		}
+		if !ok {
+			return false, fmt.Sprintf("%s: fingerprint %s… IR %s, golden %s… IR %s", t.Name, t.FP[:10], t.IRH, cands[0].FP[:10], cands[0].IRH), n
+		}
+	}
+	return true, "", n
 }
 
 func mustJSON(v any) []byte { b, _ := json.Marshal(v); return b }
